@@ -559,6 +559,26 @@ def correspondence(ctx):
         res = oracle_line(case, c_out[i], dgroups)
         if res:
             hits.append((i, case, res[0], res[1]))
+    # ---- second build configuration: plain char unsigned (the default on ARM / AArch64 / PowerPC Linux, -funsigned-char elsewhere);
+    # utf.c reads bytes through plain char in places, so the same cases must give the same lines
+    ubin = ctx.cc("drv_uchar", [H / "drv.c"], repo_srcs=["utf.c"], mode="asan", extra=["-funsigned-char"])
+    sub = lines if len(lines) <= 120000 else lines[::max(1, len(lines) // 120000)]
+    u_out, u_crashes = run_c_cases(ubin, sub)
+    sub_m = m_out if sub is lines else m_out[::max(1, len(lines) // 120000)]
+    udiff = [i for i in range(min(len(u_out), len(sub_m))) if u_out[i] != sub_m[i]]
+    ctx.cov["unsigned_char_configuration_cases"] = len(sub)
+    ctx.cov["unsigned_char_configuration_mismatches"] = len(udiff)
+    if udiff or len(u_out) != len(sub_m):
+        i = udiff[0] if udiff else min(len(u_out), len(sub_m)) - 1
+        ctx.tie_broken("correspondence utf.c built with -funsigned-char vs model: %d of %d cases differ; first: case %r  C: %r  model: %r"
+                       % (len(udiff), len(sub), sub[i], u_out[i] if i < len(u_out) else "<missing>", sub_m[i] if i < len(sub_m) else "<missing>"))
+    ug = {}
+    for i, case in enumerate(sub):
+        if i >= len(u_out):
+            break
+        res = oracle_line(case, u_out[i], ug)
+        if res:
+            hits.append((-1, case, res[0] + "/unsigned-char-build", res[1] + " [utf.c built with -funsigned-char]"))
     # ---- search oracle (C sweep)
     t0 = time.time()
     checked, sfails = c_sweep(ctx, sbin)
@@ -649,7 +669,8 @@ META = {
             "the bytes present), a_utf_length (stop and NULL) and a_utf_length_ equal to "
             "the model of coq/C18/UtfDefs.v for ALL code points, byte lists of ANY length and buffers of any size - including "
             "the failing runs: the regenerated function fails exactly where the model's checked accessors do; (2) extracted "
-            "model vs the C under ASan+UBSan with every buffer flush against a PROT_NONE page.",
+            "model vs the C under ASan+UBSan with every buffer flush against a PROT_NONE page, in two build configurations: plain "
+            "char signed (x86-64 default) and unsigned (-funsigned-char: the ARM / AArch64 / PowerPC default).",
     "note": "Trusted: Coq kernel; the translator tools/c2int.py as a reading of the C (its output is re-tied to the model by proof "
             "on every run; the extracted-model-vs-C correspondence is the independent guard against a misreading shared with "
             "the hand model); extraction (ExtrOcamlBasic only) + drivers; correspondence cases: all code points < 0x20000, "
